@@ -7,6 +7,8 @@ CHECKS = {
          "Lean 4 proof (induction over the file list) + cli correspondence + CLI oracle"),
  "C05": ("4.5", "Lean theorem lex_total: the tokenizer model returns tokens and diagnostics for every string (no KeyError, fuel never exhausted: every round consumes input) — full strength for part (a); part (b) (whole pipeline) is decided by the engine-loop theorems (progress/termination of Registry.run for any rule table whose rules return) plus an oracle over token prefixes and token edits of conforming/violating programs with crash/hang signatures; unported rules are assumptions",
          "Lean 4 proof (refinement + well-founded fuel) + lex correspondence + pipeline fault search"),
+ "C07": ("4.7", "Lean theorems about the loop of Registry.run for EVERY rule table (the rule decisions are universally quantified): consumed statements and unrecognised tokens partition the token list (each index covered exactly once), every statement consumes >= 1 token, with debug=0 a run that reaches a verdict has no unrecognised token (nothing dropped silently), the loop terminates whenever rule calls return; the conforming-file alignment and depth clauses depend on unported rules and are checked by an oracle on the observed trace (partial)",
+         "Lean 4 proof (loop invariant: cover count = 1) + engine-trace correspondence"),
  "C08": ("4.8", "Lean theorems: Error.__lt__ restricted to diagnostics with a highlight is a strict weak order for all positions/names, the printed order is ascending in the displayed (line, col) with ties by code, sorting is a permutation, status OK iff only Notices, JSON document projects exactly onto the humanized document, every lexer diagnostic has a highlight and a catalogue code; tied by sort/fmt correspondences (byte-exact text) and the regenerated catalogue",
          "Lean 4 proof (order theory on the comparator, stable sort) + sort/fmt correspondence"),
  "C09": ("4.9", "Lean theorem token_positions: for every source text every token's (line, col) equals the visual position (tab stops 4, raw characters) of its first raw character — proved by refinement of every lexer primitive to Spec.advPos; tied to lexer.py by the lex correspondence (exhaustive short strings + structured samples) and an independent raw scanner on the implementation",
